@@ -4,8 +4,9 @@ Reads the PLAIN VCF TEXT (no pysam, none of the code under test) and answers, fo
 (select_samples, ignore_conversions, phased), what a lookup must return at every site of the
 *unambiguous core*:
 
-  core site = REF and every ALT are single nucleotides, every selected sample has a genotype without
-              missing alleles, the position occurs once in the file, variants are treated as phased.
+  core site = REF and every ALT are single nucleotides (ALT "." = reference-only record), the position occurs once in the
+              file, variants are treated as phased.  A selected sample with a missing allele makes the site "monomorphic":
+              the called samples answer for their bases (documented by tests/test_alleles.py, position 40).
   * samples per base: exactly the selected samples whose genotype contains the base;
   * nothing (no base has an answer) when the selected samples show fewer than 2 distinct bases
     ("uninformative"), or when one of the shown bases b makes (REF, b) an ignored conversion;
@@ -48,6 +49,8 @@ def expected(vcf_text, select=None, ignore=None, phased=True):
         seen[(contig, pos)] = seen.get((contig, pos), 0) + 1
     for contig, pos, ref, alts, gts in recs:
         site = out.setdefault(contig, {})
+        if alts == ['.']:
+            alts = []                       # a reference-only record (gVCF / all-sites VCF)
         alleles = [ref] + alts
         if (not phased or seen[(contig, pos)] > 1 or any(a not in NUC for a in alleles)
                 or (select is not None and len(chosen) != len(set(select)))):
@@ -62,7 +65,16 @@ def expected(vcf_text, select=None, ignore=None, phased=True):
                 else:
                     per_base.setdefault(alleles[int(a)], set()).add(s)
         if missing:
-            site[pos] = UNKNOWN
+            # a selected sample without a call at the site ("monomorphic", pinned by the repository's own test at its position
+            # 40): the samples that ARE called answer for their bases, however few distinct bases there are
+            if not per_base:
+                site[pos] = {}
+            elif ignore and any((ref, b) in ignore for b in per_base):
+                site[pos] = {}
+            elif ignore and any((ref, a) in ignore for a in alts):
+                site[pos] = UNKNOWN
+            else:
+                site[pos] = {b: frozenset(v) for b, v in per_base.items()}
             continue
         if len(per_base) < 2:
             site[pos] = {}
